@@ -210,7 +210,7 @@ def run_shard(spec):
     boot.init()
     opts = dict(OPTS)
     if spec['tier'] == 'thorough':
-        opts['sizes'] = [3, 4, 5, 6, 8, 10, 12, 16, 20, 30]
+        opts['sizes'] = [3, 4, 5, 6, 8, 10, 12, 16, 20]
         opts['lengths'] = [0, 30, 60, 100, 200, 400]
     return simprops.shard_loop(spec, ID, make_monitors, classify, opts)
 
